@@ -20,7 +20,8 @@ ASSUMPTIONS = [
     'characterisation of MCNP, DESIGN 5); otherwise the universe moves with the container TRCL',
     'provenance comment = one (lowest-level filler, container) pair per level, innermost first (documented '
     'by the writer)',
-    'importance of filler cells is 1 in all generated decks',
+    'the IMP value written on a cell of a universe does not decide whether its pieces are generated (the '
+    'property statement is unconditional); only the importance of the level-0 container does',
 ]
 
 RZ90 = refsem.rotation([0, 0, 1], 90.0)
@@ -160,6 +161,11 @@ def build(ch, with_options=True):
             t2b = ch.choose('t2b', ['no-reuse', 'none', 't2', 'rz90', 'rz90b', 'id'])
             if t2b != 'no-reuse':
                 u1[2].mat = 0; u1[2].fill = 2; u1[2].filltr = make_tr(d, t2b, 'number', 3)
+    # the importance written on a cell of a universe does not decide whether the piece is generated: the
+    # piece belongs to the level-0 container
+    fimp0 = ch.choose('filler-imp0', [None, 0, 1])
+    if fimp0 is not None:
+        u1[fimp0].imp = 0
     for c in u1:
         d.add_cell(c)
     if depth >= 2:
